@@ -66,6 +66,7 @@ type Facts struct {
 	Mocks      []MockFacts `json:"mocks"`
 	TopDecls   []string    `json:"top_decls"`
 	TypeErrors []string    `json:"type_errors"`
+	ErrorSites []string    `json:"error_sites"` // where in the generated file each diagnostic points: stub_block:<method> | body:<method> | decl
 	TypeCheck  string      `json:"typecheck"` // ok | errors | skipped:<why>
 	Coq        string      `json:"coq,omitempty"` // list mmock term
 }
@@ -287,7 +288,11 @@ func analyze(r FactsReq) (fx Facts) {
 	}
 	fx.Coq = coqMocks(fx.Mocks)
 	if r.Typecheck {
-		fx.TypeCheck, fx.TypeErrors = typecheckGenerated(r, fx.PkgName)
+		var positions []string
+		fx.TypeCheck, fx.TypeErrors, positions = typecheckGenerated(r, fx.PkgName)
+		for _, pos := range positions {
+			fx.ErrorSites = append(fx.ErrorSites, errorSite(fset, file, pos))
+		}
 	} else {
 		fx.TypeCheck = "skipped:not requested"
 	}
@@ -298,14 +303,54 @@ func analyze(r FactsReq) (fx Facts) {
 // together with the source package's files when the package names agree, as the
 // external test package for <src>_test, and as a separate package in a fresh
 // sibling directory otherwise.  Uses a go/packages overlay; nothing is written.
-func typecheckGenerated(r FactsReq, genPkg string) (string, []string) {
+// errorSite classifies a diagnostic position ("file:line:col") inside the generated file.
+func errorSite(fset *token.FileSet, file *ast.File, pos string) string {
+	parts := strings.Split(pos, ":")
+	if len(parts) < 3 || !(strings.Contains(parts[len(parts)-3], "zz_generated_moq") || strings.HasSuffix(parts[len(parts)-3], "gen.go")) {
+		return "elsewhere"
+	}
+	line, err := strconv.Atoi(parts[len(parts)-2])
+	if err != nil {
+		return "decl"
+	}
+	for _, d := range file.Decls {
+		fd, ok := d.(*ast.FuncDecl)
+		if !ok || fd.Body == nil {
+			continue
+		}
+		if fset.Position(fd.Pos()).Line <= line && line <= fset.Position(fd.End()).Line {
+			for _, st := range fd.Body.List {
+				if is, ok := st.(*ast.IfStmt); ok {
+					if fset.Position(is.Pos()).Line <= line && line <= fset.Position(is.End()).Line {
+						// the nil branch: panic (default) or the zero-value block (-stub)
+						for _, s := range is.Body.List {
+							if _, ok := s.(*ast.DeclStmt); ok {
+								return "stub_block:" + fd.Name.Name
+							}
+							if _, ok := s.(*ast.ReturnStmt); ok {
+								return "stub_block:" + fd.Name.Name
+							}
+						}
+					}
+				}
+			}
+			if fset.Position(fd.Body.Pos()).Line < line {
+				return "body:" + fd.Name.Name
+			}
+			return "signature:" + fd.Name.Name
+		}
+	}
+	return "decl"
+}
+
+func typecheckGenerated(r FactsReq, genPkg string) (string, []string, []string) {
 	abs, err := filepath.Abs(r.Dir)
 	if err != nil {
-		return "skipped:" + err.Error(), nil
+		return "skipped:" + err.Error(), nil, nil
 	}
 	src, err := packages.Load(&packages.Config{Mode: packages.NeedName, Dir: abs})
 	if err != nil || len(src) != 1 {
-		return "skipped:cannot load source", nil
+		return "skipped:cannot load source", nil, nil
 	}
 	srcName := src[0].Name
 	// earlier output of moq in the directory is what a regeneration would overwrite
@@ -346,19 +391,19 @@ func typecheckGenerated(r FactsReq, genPkg string) (string, []string) {
 		cfg.Dir = abs
 		pkgs, err := packages.Load(cfg, "./zzmoqdest")
 		if err != nil {
-			return "skipped:" + err.Error(), nil
+			return "skipped:" + err.Error(), nil, nil
 		}
 		return collectErrors(pkgs, "")
 	}
 	pkgs, err := packages.Load(cfg, ".")
 	if err != nil {
-		return "skipped:" + err.Error(), nil
+		return "skipped:" + err.Error(), nil, nil
 	}
 	return collectErrors(pkgs, want)
 }
 
-func collectErrors(pkgs []*packages.Package, wantID string) (string, []string) {
-	var errs []string
+func collectErrors(pkgs []*packages.Package, wantID string) (string, []string, []string) {
+	var errs, positions []string
 	found := false
 	for _, p := range pkgs {
 		if wantID != "" && p.ID != wantID {
@@ -371,6 +416,7 @@ func collectErrors(pkgs []*packages.Package, wantID string) (string, []string) {
 				msg = msg[:300]
 			}
 			errs = append(errs, msg)
+			positions = append(positions, e.Pos)
 		}
 	}
 	if !found {
@@ -378,10 +424,10 @@ func collectErrors(pkgs []*packages.Package, wantID string) (string, []string) {
 		for _, p := range pkgs {
 			ids = append(ids, p.ID)
 		}
-		return "skipped:destination package not found among " + strings.Join(ids, ","), nil
+		return "skipped:destination package not found among " + strings.Join(ids, ","), nil, nil
 	}
 	if len(errs) == 0 {
-		return "ok", nil
+		return "ok", nil, nil
 	}
-	return "errors", errs
+	return "errors", errs, positions
 }
